@@ -1565,6 +1565,7 @@ post_client_hello_gnutls_psk(gnutls_session_t g_session) {
        * New SNI request
        */
       const coap_dtls_spsk_info_t *new_entry;
+      psk_sni_entry *new_list;
 
       coap_lock_callback_ret(new_entry, c_session->context,
                              c_session->context->spsk_setup_data.validate_sni_call_back(name,
@@ -1578,10 +1579,19 @@ post_client_hello_gnutls_psk(gnutls_session_t g_session) {
         goto end;
       }
 
-      g_context->psk_sni_entry_list =
-          gnutls_realloc(g_context->psk_sni_entry_list,
-                         (i+1)*sizeof(psk_sni_entry));
+      new_list = gnutls_realloc(g_context->psk_sni_entry_list,
+                                (i+1)*sizeof(psk_sni_entry));
+      if (new_list == NULL) {
+        /* the existing list stays as it is */
+        ret = GNUTLS_E_MEMORY_ERROR;
+        goto end;
+      }
+      g_context->psk_sni_entry_list = new_list;
       g_context->psk_sni_entry_list[i].sni = gnutls_strdup(name);
+      if (g_context->psk_sni_entry_list[i].sni == NULL) {
+        ret = GNUTLS_E_MEMORY_ERROR;
+        goto end;
+      }
       g_context->psk_sni_entry_list[i].psk_info = *new_entry;
       sni_setup_data = c_session->context->spsk_setup_data;
       sni_setup_data.psk_info = *new_entry;
@@ -1681,6 +1691,7 @@ post_client_hello_gnutls_pki(gnutls_session_t g_session) {
        * New SNI request
        */
       coap_dtls_key_t *new_entry;
+      pki_sni_entry *new_list;
 
       coap_lock_callback_ret(new_entry, c_session->context,
                              g_context->setup_data.validate_sni_call_back(name,
@@ -1693,10 +1704,19 @@ post_client_hello_gnutls_pki(gnutls_session_t g_session) {
         goto end;
       }
 
-      g_context->pki_sni_entry_list = gnutls_realloc(
-                                          g_context->pki_sni_entry_list,
-                                          (i+1)*sizeof(pki_sni_entry));
+      new_list = gnutls_realloc(g_context->pki_sni_entry_list,
+                                (i+1)*sizeof(pki_sni_entry));
+      if (new_list == NULL) {
+        /* the existing list stays as it is */
+        ret = GNUTLS_E_MEMORY_ERROR;
+        goto end;
+      }
+      g_context->pki_sni_entry_list = new_list;
       g_context->pki_sni_entry_list[i].sni = gnutls_strdup(name);
+      if (g_context->pki_sni_entry_list[i].sni == NULL) {
+        ret = GNUTLS_E_MEMORY_ERROR;
+        goto end;
+      }
       g_context->pki_sni_entry_list[i].pki_key = *new_entry;
       sni_setup_data = g_context->setup_data;
       sni_setup_data.pki_key = *new_entry;
